@@ -32,12 +32,12 @@ FUNCTIONS = [
 ]
 OPS = ["append", "insert", "delete_ix", "delete_mn", "update_ix", "update_mn", "replace_item", "setitem_arr", "setitem_item", "set_data"]
 BOUNDS = {
-    "quick": {"history_len": 2, "starts": ["empty", "two"], "ops": OPS, "names": "'', 'A', 'B'", "task_budget_s": 600},
-    "thorough": {"history_len": 3, "starts": ["empty", "two"], "ops": OPS, "names": "'', 'A', 'B'", "task_budget_s": 3000, "max_paths": 1000000},
+    "quick": {"history_len": 2, "starts": ["empty", "two", "two-transforms"], "ops": OPS, "names": "'', 'A', 'B'", "task_budget_s": 600},
+    "thorough": {"history_len": 3, "starts": ["empty", "two", "two-transforms"], "ops": OPS, "names": "'', 'A', 'B'", "task_budget_s": 3000, "max_paths": 1000000},
 }
 ASSUMPTIONS = [
     "arrays are concrete 1-D float arrays of length 2 with distinct contents; 2-D arrays given to set_data are as wide as the curve list or one or two columns wider",
-    "names: '', 'A', 'B' (so existing / new / duplicate / blank names all occur); positions: every list position incl. negatives and both ends",
+    "names: '', 'A', 'B' (so existing / new / duplicate / blank names all occur); in the case-normalised start state (as after read with mnemonic_case upper/lower) also 'a'; positions: every list position incl. negatives and both ends",
     "operations addressed by mnemonic use a session name that exists (taken from keys()) or, for item assignment, also a new name",
     "set_data_from_df / pandas are outside (not claimed)",
 ]
@@ -52,7 +52,7 @@ def tasks(tier):
         for first in b["ops"]:
             if st == "empty" and first in ("delete_ix", "delete_mn", "update_ix", "update_mn", "replace_item"):
                 continue
-            out.append({"name": "%s/%s" % (st, first), "params": {"start": st, "first": first, "k": b["history_len"]}})
+            out.append({"name": "%s/%s" % (st, first), "params": {"start": st, "first": first, "k": b["history_len"] if st != "two-transforms" else 2}})
     return out
 
 
@@ -74,10 +74,12 @@ def harness(ns, params):
         other = ns.las.LASFile()
         other.append_curve("O", arr(9), unit="ou")
         model = []
-        if start == "two":
+        if start in ("two", "two-transforms"):
             las.append_curve("DEPT", arr(7, 0), unit="M", descr="depth")
             las.append_curve("A", arr(7, 1), unit="ua", descr="first", value="va")
             model = [["DEPT", "M", "", "depth", arr(7, 0)], ["A", "ua", "va", "first", arr(7, 1)]]
+        if start == "two-transforms":
+            las.curves.mnemonic_transforms = True  # as in a file read with mnemonic_case upper/lower: lookups ignore case
         obs = []
         for t in range(K):
             n = len(model)
@@ -88,7 +90,7 @@ def harness(ns, params):
                 oi = fresh_int("op%d" % t, 0, len(valid) - 1)
                 op = OPS[valid[oi.__index__()]]
             nm = SymStr.fresh("n%d" % t, 1)
-            A(allc(nm, lambda ch: z.in_set_c(ch, (65, 66))))
+            A(allc(nm, lambda ch: z.in_set_c(ch, (65, 66, 97) if start == "two-transforms" else (65, 66))))
             inputs["ops"].append(op)
             inputs["names"].append(nm)
             pos = fresh_int("p%d" % t, -n - 1, n + 1)
@@ -215,7 +217,7 @@ def harness(ns, params):
                     obl.append(("mnemonic-indexing@%d" % t, las[ks[i_]] is cv.data))
                 if op == "set_data" and data.size > 0:
                     # set_data names every curve anew: the session names are those of a freshly named list
-                    want_keys = fresh_session_names([_conc_name(row[0]) for row in model])
+                    want_keys = fresh_session_names([_conc_name(row[0]) for row in model], start == "two-transforms")
                     core.witness("set_data-after-un-duplication", z.And(z.Or([_has_colon(k) for k in keys_before]), not any(":" in k for k in want_keys)))
                     obl.append(("session-names-after-set_data@%d" % t, z.And([SymStr.lift(ks[i_]).eq_expr(want_keys[i_]) for i_ in range(len(cur))])))
                 if cur:
@@ -231,14 +233,17 @@ def harness(ns, params):
     return run
 
 
-def fresh_session_names(originals):
-    """session names of a freshly named list: blank -> UNKNOWN, names occurring more than once get :1..:n in order"""
+def fresh_session_names(originals, ignore_case=False):
+    """session names of a freshly named list: blank -> UNKNOWN, names occurring more than once (ignoring case in a
+    case-normalised section) get :1..:n in order"""
     useful = [n if n.strip() else "UNKNOWN" for n in originals]
+    norm = (lambda x: x.upper()) if ignore_case else (lambda x: x)
     out, seen = [], {}
     for n in useful:
-        if useful.count(n) > 1:
-            seen[n] = seen.get(n, 0) + 1
-            out.append("%s:%d" % (n, seen[n]))
+        g = norm(n)
+        if sum(1 for w in useful if norm(w) == g) > 1:
+            seen[g] = seen.get(g, 0) + 1
+            out.append("%s:%d" % (n, seen[g]))
         else:
             out.append(n)
     return out
@@ -254,7 +259,7 @@ def _conc_name(x):
     """concrete value of a model name (forks over the name alphabet of this check)"""
     if isinstance(x, str):
         return x
-    for cand in ("", "A", "B"):
+    for cand in ("", "A", "B", "a"):
         if x == cand:
             return cand
     raise core.OutOfBound("name outside '', 'A', 'B'")
@@ -277,10 +282,12 @@ def replay(i):
     other = lasio.LASFile()
     other.append_curve("O", arr(9), unit="ou")
     model = []
-    if start == "two":
+    if start in ("two", "two-transforms"):
         las.append_curve("DEPT", arr(7, 0), unit="M", descr="depth")
         las.append_curve("A", arr(7, 1), unit="ua", descr="first", value="va")
         model = [["DEPT", "M", "", "depth", arr(7, 0)], ["A", "ua", "va", "first", arr(7, 1)]]
+    if start == "two-transforms":
+        las.curves.mnemonic_transforms = True
     problems = []
     for t, op in enumerate(ops):
         if t >= len(pos):
@@ -364,8 +371,8 @@ def replay(i):
         if got != want:
             problems.append("step %d %s(name=%r,pos=%r,sel=%r,flag=%r): curves %r, list model %r" % (t, op, nm, p, s, flg, got, want))
             break
-        if op == "set_data" and data.size > 0 and las.keys() != fresh_session_names([r[0] for r in model]):
-            problems.append("step %d set_data(names=%r): session names %r, a freshly named list %r has %r" % (t, nlist, las.keys(), [r[0] for r in model], fresh_session_names([r[0] for r in model])))
+        if op == "set_data" and data.size > 0 and las.keys() != fresh_session_names([r[0] for r in model], start == "two-transforms"):
+            problems.append("step %d set_data(names=%r): session names %r, a freshly named list %r has %r" % (t, nlist, las.keys(), [r[0] for r in model], fresh_session_names([r[0] for r in model], start == "two-transforms")))
         if any(las[k_] is not cv.data for k_, cv in zip(las.keys(), cur)) if len(set(las.keys())) == len(cur) else False:
             problems.append("step %d: mnemonic indexing disagrees with keys() %r" % (t, las.keys()))
         if las.keys() != [cv.mnemonic for cv in cur] or any(a is not cv.data for a, cv in zip(las.values(), cur)) or any(las[k_] is not cv.data for k_, cv in enumerate(cur)):
